@@ -31,7 +31,7 @@ def run(prop, patch, expect):
     dst = tree_for(patch)
     if dst is None:
         return (patch, expect, "NOAPPLY", "")
-    env = dict(os.environ, VERIF_REPO=dst, VERIF_EVIDENCE_DIR=dst + ".evidence")
+    env = dict(os.environ, VERIF_REPO=dst, VERIF_EVIDENCE_DIR=dst + ".evidence", VERIF_FACTS_KEEP="600")
     r = subprocess.run([os.path.join(V, "vcheck"), prop, "quick"], cwd=V, env=env, capture_output=True, text=True)
     out = r.stdout + r.stderr
     lines = [l.strip()[:260] for l in out.splitlines() if l.strip().startswith(("violation:", "ANCHOR", "CONTROL", "FACTGEN", "Traceback", "  File ", "KeyError", "TypeError", "AttributeError", "IndexError", "vlib.", "ValueError"))]
